@@ -238,7 +238,7 @@ theorem pinv_connError (size : Nat) (p p' : Pool) (k n m : Nat) (h : PInv size p
 structure HInv (h : Host) : Prop where
   cur : ∀ p, h.cur = some p → PInv h.cfg.size p
   old : ∀ p ∈ h.old, PInv h.cfg.size p ∧ p.closed = true
-  sess : h.sessClosed = true → h.cur = none
+  sess : h.sessClosed = true → h.lateAdd = false → h.cur = none
 
 theorem firstOk_inv (P : Pool → Prop) (f : Pool → Option (Pool × Nat))
     (hf : ∀ p p' n, P p → f p = some (p', n) → P p') :
@@ -286,22 +286,19 @@ theorem route_inv (h h' : Host) (f : Pool → Option (Pool × Nat))
       injection hs with hs; subst hs
       refine ⟨⟨?_, i2, ?_⟩, rfl⟩
       · intro q hq; simp at hq; subst hq; exact (hf p _ n (i1 p hc) hfp).1
-      · intro hsc; have := i3 hsc; simp [hc] at this
+      · intro hsc hl; have := i3 hsc hl; simp [hc] at this
     · exact old_case h' hs
   · exact old_case h' hs
 
-theorem fillCur_inv (h : Host) (hi : HInv h) (hns : h.sessClosed = false) : HInv h.fillCur ∧ h.fillCur.cfg = h.cfg := by
+theorem fillCur_inv (h : Host) (hi : HInv h) : HInv h.fillCur ∧ h.fillCur.cfg = h.cfg := by
   obtain ⟨i1, i2, i3⟩ := hi
   unfold Host.fillCur
   split
   · rename_i p hc
     refine ⟨⟨?_, i2, ?_⟩, rfl⟩
     · intro q hq; simp at hq; subst hq; exact pinv_fill _ _ _ (i1 p hc)
-    · intro hsc; simp [hns] at hsc
+    · intro hsc hl; have := i3 hsc hl; simp [hc] at this
   · exact ⟨⟨i1, i2, i3⟩, rfl⟩
-
-theorem fillCur_inv' (h : Host) (hi : HInv h) (hc : h.cur = none) : HInv h.fillCur ∧ h.fillCur.cfg = h.cfg := by
-  unfold Host.fillCur; simp [hc]; exact hi
 
 theorem hinv_init (c : Cfg) (hpos : 0 < c.size) : HInv (Host.init c) := by
   refine ⟨?_, ?_, ?_⟩
@@ -337,30 +334,35 @@ theorem hinv_step (h h' : Host) (a : Act) (hi : HInv h) (hs : h.step a = some h'
       injection hs with hs; subst hs
       refine ⟨⟨?_, hi.old, ?_⟩, rfl⟩
       · intro q hq; simp at hq; subst hq; exact (pinv_fillCheck _ p (hi.cur p hc)).1
-      · intro hsc; have := hi.sess hsc; simp [hc] at this
+      · intro hsc hl; have := hi.sess hsc hl; simp [hc] at this
     · injection hs with hs; subst hs; exact ⟨hi, rfl⟩
   | fillGo =>
     exact route_inv h h' _ (fun p p' n hp hfp => pinv_fillGo _ p p' h.nextId n hp hfp) hi hs
   | pick =>
     simp only [Host.step] at hs; injection hs with hs; subst hs
-    cases hsc : h.sessClosed with
-    | false => exact fillCur_inv h hi hsc
-    | true => exact fillCur_inv' h hi (hi.sess hsc)
+    exact fillCur_inv h hi
   | up =>
     simp only [Host.step] at hs
     split at hs
     · simp at hs
-    · rename_i hsc
-      have hsc' : h.sessClosed = false := by cases hx : h.sessClosed <;> simp_all
+    · have hi0 : HInv { h with lateAdd := h.lateAdd || h.sessClosed } := by
+        refine ⟨hi.cur, hi.old, ?_⟩
+        intro hsc hl
+        simp only [Bool.or_eq_false_iff] at hl
+        simp only at hsc
+        rw [hsc] at hl; simp at hl
       split at hs
-      · injection hs with hs; subst hs; exact fillCur_inv h hi hsc'
+      · injection hs with hs; subst hs; exact fillCur_inv _ hi0
       · rename_i hc
         injection hs with hs; subst hs
-        have hi2 : HInv { h with cur := some Pool.new } := by
+        have hi2 : HInv { { h with lateAdd := h.lateAdd || h.sessClosed } with cur := some Pool.new } := by
           refine ⟨?_, hi.old, ?_⟩
           · intro q hq; simp at hq; subst hq; exact pinv_new _
-          · intro hx; simp [hsc'] at hx
-        exact fillCur_inv _ hi2 hsc'
+          · intro hsc hl
+            simp only [Bool.or_eq_false_iff] at hl
+            simp only at hsc
+            rw [hsc] at hl; simp at hl
+        exact fillCur_inv _ hi2
   | down =>
     simp only [Host.step] at hs
     split at hs
@@ -372,7 +374,7 @@ theorem hinv_step (h h' : Host) (a : Act) (hi : HInv h) (hs : h.step a = some h'
         rcases List.mem_cons.mp hq with rfl | hq
         · exact pinv_close _ p (hi.cur p hc)
         · exact hi.old q hq
-      · intro _; rfl
+      · intro _ _; rfl
     · injection hs with hs; subst hs; exact ⟨hi, rfl⟩
   | pclose =>
     simp only [Host.step] at hs
@@ -381,7 +383,7 @@ theorem hinv_step (h h' : Host) (a : Act) (hi : HInv h) (hs : h.step a = some h'
       injection hs with hs; subst hs
       refine ⟨⟨?_, hi.old, ?_⟩, rfl⟩
       · intro q hq; simp at hq; subst hq; exact (pinv_close _ p (hi.cur p hc)).1
-      · intro hsc; have := hi.sess hsc; simp [hc] at this
+      · intro hsc hl; have := hi.sess hsc hl; simp [hc] at this
     · injection hs with hs; subst hs; exact ⟨hi, rfl⟩
   | sclose =>
     simp only [Host.step] at hs
@@ -394,10 +396,15 @@ theorem hinv_step (h h' : Host) (a : Act) (hi : HInv h) (hs : h.step a = some h'
         rcases List.mem_cons.mp hq with rfl | hq
         · exact pinv_close _ p (hi.cur p hc)
         · exact hi.old q hq
-      · intro _; rfl
+      · intro _ _; rfl
     · rename_i hc
       injection hs with hs; subst hs
-      exact ⟨⟨by intro q hq; simp [hc] at hq, hi.old, fun _ => hc⟩, rfl⟩
+      exact ⟨⟨by intro q hq; simp [hc] at hq, hi.old, fun _ _ => hc⟩, rfl⟩
+  | scancel =>
+    simp only [Host.step] at hs
+    split at hs
+    · injection hs with hs; subst hs; exact ⟨⟨hi.cur, hi.old, hi.sess⟩, rfl⟩
+    · simp at hs
 
 theorem hinv_run : ∀ (as : List Act) (h h' : Host), HInv h → h.run as = some h' → HInv h' ∧ h'.cfg = h.cfg
   | [], h, h', hi, hr => by simp [Host.run] at hr; subst hr; exact ⟨hi, rfl⟩
